@@ -139,3 +139,47 @@ pub fn run_socket(sc: &Value) -> Value {
     rt.shutdown_timeout(Duration::from_millis(200));
     json!({"conns": results})
 }
+
+/// whole-server scenario: start the real `create_memcrs_server` with CLI-style arguments and count how many
+/// simultaneously open connections get a noop answered.
+/// {"kind":"server","args":[...without --port...],"conns":n}
+pub fn run_server(sc: &Value) -> Value {
+    let port = free_port();
+    let mut args: Vec<String> = vec!["memcrsd".to_string(), "--port".to_string(), port.to_string()];
+    for a in sc["args"].as_array().unwrap() {
+        args.push(a.as_str().unwrap().to_string());
+    }
+    let cfg = match memcrs::memcache::cli::parser::parse(args) {
+        Ok(c) => c,
+        Err(e) => return json!({"error": format!("cannot parse args: {}", e)}),
+    };
+    let timer = Arc::new(memcrs::server::timer::SystemTimer::new());
+    let rt = memcrs::memcache_server::runtime_builder::create_memcrs_server(cfg, timer.clone());
+    let addr: std::net::SocketAddr = format!("127.0.0.1:{}", port).parse().unwrap();
+    std::thread::sleep(Duration::from_millis(300));
+    let n = sc["conns"].as_u64().unwrap_or(2) as usize;
+    let noop: Vec<u8> = vec![0x80, 0x0a, 0, 0, 0, 0, 0, 0, 0, 0, 0, 0, 0, 0, 0, 7, 0, 0, 0, 0, 0, 0, 0, 0];
+    let mut socks = vec![];
+    for _ in 0..n {
+        match TcpStream::connect(addr) {
+            Ok(mut s) => {
+                s.set_nodelay(true).unwrap();
+                let _ = s.write_all(&noop);
+                socks.push(s);
+            }
+            Err(e) => return json!({"error": format!("connect: {}", e)}),
+        }
+        std::thread::sleep(Duration::from_millis(60));
+    }
+    let mut served = 0;
+    let mut per = vec![];
+    for s in socks.iter_mut() {
+        let (got, _closed) = read_for(s, 400);
+        if got.len() >= 24 {
+            served += 1;
+        }
+        per.push(got.len());
+    }
+    std::mem::forget(rt);
+    json!({"served": served, "answered_bytes": per})
+}
